@@ -1,1 +1,287 @@
-//! Harness contracts for C04.
+//! Harness contracts for C04 (also usable as an RWA flavour by the fungible checks C01/C02).
+//!
+//! * `rwa_tok::RwaTok` — thin wiring of `RWAToken` + `Pausable` + `FungibleToken<ContractType = RWA>`
+//!   over `RWA::*` / `pausable::*` exactly as the trait documentation prescribes.  Every supervisory
+//!   entry point takes an `operator` (resp. `caller`) that must `require_auth()` and equal the stored admin.
+//!   No logic of its own.
+//! * `mock_compliance::MockCompliance` — collaborator on the far side of `ComplianceClient`:
+//!   scripted `can_transfer` / `can_create`, append-only log of `transferred` / `created` / `destroyed`.
+//!   It ALSO answers the `ComplianceModuleClient` interface (`on_transfer` / `on_created` / `on_destroyed`,
+//!   same `can_*` signatures) so that it can sit behind the library's own modular compliance contract.
+//! * `lib_compliance::LibCompliance` — the library's modular compliance (`rwa::compliance::storage::*`
+//!   + token binder) wired without access control (set-up only); used by a tenth of the cases.
+//! * `mock_idv::MockIdVerifier` — collaborator on the far side of `IdentityVerifierClient`:
+//!   per-account pass/fail (`verify_identity` panics with `IdentityVerificationFailed` like the real one),
+//!   scripted `recovery_target(old_account) -> Option<Address>`.
+
+pub mod rwa_tok {
+    use soroban_sdk::{contract, contractimpl, symbol_short, Address, Env, MuxedAddress, String, Symbol};
+    use stellar_contract_utils::pausable::{self as pausable, Pausable};
+    use stellar_tokens::fungible::{Base, FungibleToken};
+    use stellar_tokens::rwa::{RWAToken, RWA};
+    const ADMIN: Symbol = symbol_short!("ADMIN");
+
+    #[contract]
+    pub struct RwaTok;
+
+    /// `operator.require_auth()` + operator must be the stored admin (stands for the RBAC check the docs ask for)
+    fn operator_auth(e: &Env, operator: &Address) {
+        operator.require_auth();
+        let admin: Address = e.storage().instance().get(&ADMIN).unwrap();
+        if admin != *operator {
+            panic!("not the operator");
+        }
+    }
+
+    #[contractimpl]
+    impl RwaTok {
+        pub fn __constructor(e: &Env, admin: Address, compliance: Address, identity_verifier: Address) {
+            Base::set_metadata(e, 7, String::from_str(e, "Rwa"), String::from_str(e, "RWA"));
+            e.storage().instance().set(&ADMIN, &admin);
+            RWA::set_compliance(e, &compliance);
+            RWA::set_identity_verifier(e, &identity_verifier);
+        }
+    }
+
+    #[contractimpl(contracttrait)]
+    impl FungibleToken for RwaTok {
+        type ContractType = RWA;
+    }
+
+    #[contractimpl]
+    impl Pausable for RwaTok {
+        fn paused(e: &Env) -> bool {
+            pausable::paused(e)
+        }
+        fn pause(e: &Env, caller: Address) {
+            operator_auth(e, &caller);
+            pausable::pause(e);
+        }
+        fn unpause(e: &Env, caller: Address) {
+            operator_auth(e, &caller);
+            pausable::unpause(e);
+        }
+    }
+
+    #[contractimpl]
+    impl RWAToken for RwaTok {
+        fn forced_transfer(e: &Env, from: Address, to: Address, amount: i128, operator: Address) {
+            operator_auth(e, &operator);
+            RWA::forced_transfer(e, &from, &to, amount);
+        }
+        fn mint(e: &Env, to: Address, amount: i128, operator: Address) {
+            operator_auth(e, &operator);
+            RWA::mint(e, &to, amount);
+        }
+        fn burn(e: &Env, user_address: Address, amount: i128, operator: Address) {
+            operator_auth(e, &operator);
+            RWA::burn(e, &user_address, amount);
+        }
+        fn recover_balance(e: &Env, old_account: Address, new_account: Address, operator: Address) -> bool {
+            operator_auth(e, &operator);
+            RWA::recover_balance(e, &old_account, &new_account)
+        }
+        fn set_address_frozen(e: &Env, user_address: Address, freeze: bool, operator: Address) {
+            operator_auth(e, &operator);
+            RWA::set_address_frozen(e, &user_address, freeze);
+        }
+        fn freeze_partial_tokens(e: &Env, user_address: Address, amount: i128, operator: Address) {
+            operator_auth(e, &operator);
+            RWA::freeze_partial_tokens(e, &user_address, amount);
+        }
+        fn unfreeze_partial_tokens(e: &Env, user_address: Address, amount: i128, operator: Address) {
+            operator_auth(e, &operator);
+            RWA::unfreeze_partial_tokens(e, &user_address, amount);
+        }
+        fn is_frozen(e: &Env, user_address: Address) -> bool {
+            RWA::is_frozen(e, &user_address)
+        }
+        fn get_frozen_tokens(e: &Env, user_address: Address) -> i128 {
+            RWA::get_frozen_tokens(e, &user_address)
+        }
+        fn version(e: &Env) -> String {
+            RWA::version(e)
+        }
+        fn onchain_id(e: &Env) -> Address {
+            RWA::onchain_id(e)
+        }
+        fn set_compliance(e: &Env, compliance: Address, operator: Address) {
+            operator_auth(e, &operator);
+            RWA::set_compliance(e, &compliance);
+        }
+        fn compliance(e: &Env) -> Address {
+            RWA::compliance(e)
+        }
+        fn set_identity_verifier(e: &Env, identity_verifier: Address, operator: Address) {
+            operator_auth(e, &operator);
+            RWA::set_identity_verifier(e, &identity_verifier);
+        }
+        fn identity_verifier(e: &Env) -> Address {
+            RWA::identity_verifier(e)
+        }
+    }
+}
+
+pub mod mock_compliance {
+    use soroban_sdk::{contract, contractimpl, contracttype, symbol_short, Address, Env, Symbol, Vec};
+    const TX_OK: Symbol = symbol_short!("tx_ok");
+    const MINT_OK: Symbol = symbol_short!("mint_ok");
+    const LOG: Symbol = symbol_short!("log");
+
+    pub const TRANSFERRED: u32 = 1;
+    pub const CREATED: u32 = 2;
+    pub const DESTROYED: u32 = 3;
+
+    /// one notification, with the exact arguments received (`to == from` for created / destroyed)
+    #[contracttype]
+    #[derive(Clone, Debug, PartialEq, Eq)]
+    pub struct Note {
+        pub kind: u32,
+        pub from: Address,
+        pub to: Address,
+        pub amount: i128,
+        pub token: Address,
+    }
+
+    #[contract]
+    pub struct MockCompliance;
+
+    fn push(e: &Env, n: Note) {
+        let mut v: Vec<Note> = e.storage().persistent().get(&LOG).unwrap_or(Vec::new(e));
+        v.push_back(n);
+        e.storage().persistent().set(&LOG, &v);
+    }
+
+    #[contractimpl]
+    impl MockCompliance {
+        // ---- scripting / observation (test side)
+        pub fn set_can_transfer(e: &Env, ok: bool) {
+            e.storage().persistent().set(&TX_OK, &ok);
+        }
+        pub fn set_can_create(e: &Env, ok: bool) {
+            e.storage().persistent().set(&MINT_OK, &ok);
+        }
+        pub fn log(e: &Env) -> Vec<Note> {
+            e.storage().persistent().get(&LOG).unwrap_or(Vec::new(e))
+        }
+        pub fn clear_log(e: &Env) {
+            e.storage().persistent().remove(&LOG);
+        }
+
+        // ---- `ComplianceClient` surface the token calls (and the `can_*` half of `ComplianceModuleClient`)
+        pub fn can_transfer(e: &Env, _from: Address, _to: Address, _amount: i128, _token: Address) -> bool {
+            e.storage().persistent().get(&TX_OK).unwrap_or(true)
+        }
+        pub fn can_create(e: &Env, _to: Address, _amount: i128, _token: Address) -> bool {
+            e.storage().persistent().get(&MINT_OK).unwrap_or(true)
+        }
+        pub fn transferred(e: &Env, from: Address, to: Address, amount: i128, token: Address) {
+            push(e, Note { kind: TRANSFERRED, from, to, amount, token });
+        }
+        pub fn created(e: &Env, to: Address, amount: i128, token: Address) {
+            push(e, Note { kind: CREATED, from: to.clone(), to, amount, token });
+        }
+        pub fn destroyed(e: &Env, from: Address, amount: i128, token: Address) {
+            push(e, Note { kind: DESTROYED, from: from.clone(), to: from, amount, token });
+        }
+
+        // ---- `ComplianceModuleClient` notification half (when registered as a module of `LibCompliance`)
+        pub fn on_transfer(e: &Env, from: Address, to: Address, amount: i128, token: Address) {
+            push(e, Note { kind: TRANSFERRED, from, to, amount, token });
+        }
+        pub fn on_created(e: &Env, to: Address, amount: i128, token: Address) {
+            push(e, Note { kind: CREATED, from: to.clone(), to, amount, token });
+        }
+        pub fn on_destroyed(e: &Env, from: Address, amount: i128, token: Address) {
+            push(e, Note { kind: DESTROYED, from: from.clone(), to: from, amount, token });
+        }
+    }
+}
+
+pub mod lib_compliance {
+    use soroban_sdk::{contract, contractimpl, Address, Env, Vec};
+    use stellar_tokens::rwa::compliance::{storage as cs, ComplianceHook};
+    use stellar_tokens::rwa::utils::token_binder as binder;
+
+    /// The library's modular compliance contract; module / token management is left open (set-up only,
+    /// its access control is not the subject of C04).
+    #[contract]
+    pub struct LibCompliance;
+
+    #[contractimpl]
+    impl LibCompliance {
+        pub fn bind_token(e: &Env, token: Address) {
+            binder::bind_token(e, &token);
+        }
+        pub fn add_module_to(e: &Env, hook: ComplianceHook, module: Address) {
+            cs::add_module_to(e, hook, module);
+        }
+        pub fn get_modules_for_hook(e: &Env, hook: ComplianceHook) -> Vec<Address> {
+            cs::get_modules_for_hook(e, hook)
+        }
+        pub fn transferred(e: &Env, from: Address, to: Address, amount: i128, token: Address) {
+            cs::transferred(e, from, to, amount, token);
+        }
+        pub fn created(e: &Env, to: Address, amount: i128, token: Address) {
+            cs::created(e, to, amount, token);
+        }
+        pub fn destroyed(e: &Env, from: Address, amount: i128, token: Address) {
+            cs::destroyed(e, from, amount, token);
+        }
+        pub fn can_transfer(e: &Env, from: Address, to: Address, amount: i128, token: Address) -> bool {
+            cs::can_transfer(e, from, to, amount, token)
+        }
+        pub fn can_create(e: &Env, to: Address, amount: i128, token: Address) -> bool {
+            cs::can_create(e, to, amount, token)
+        }
+    }
+}
+
+pub mod mock_idv {
+    use soroban_sdk::{contract, contractimpl, contracttype, panic_with_error, Address, Env};
+    use stellar_tokens::rwa::RWAError;
+
+    #[contracttype]
+    pub enum Key {
+        /// explicit verdict for one account
+        Ok(Address),
+        /// verdict for accounts without an explicit one
+        Default,
+        /// scripted recovery target of an old account
+        Recovery(Address),
+    }
+
+    #[contract]
+    pub struct MockIdVerifier;
+
+    #[contractimpl]
+    impl MockIdVerifier {
+        // ---- scripting (test side)
+        pub fn set_identity(e: &Env, account: Address, ok: bool) {
+            e.storage().persistent().set(&Key::Ok(account), &ok);
+        }
+        pub fn set_default(e: &Env, ok: bool) {
+            e.storage().persistent().set(&Key::Default, &ok);
+        }
+        pub fn set_recovery_target(e: &Env, old_account: Address, target: Option<Address>) {
+            match target {
+                Some(t) => e.storage().persistent().set(&Key::Recovery(old_account), &t),
+                None => e.storage().persistent().remove(&Key::Recovery(old_account)),
+            }
+        }
+        pub fn identity_ok(e: &Env, account: Address) -> bool {
+            let d: bool = e.storage().persistent().get(&Key::Default).unwrap_or(true);
+            e.storage().persistent().get(&Key::Ok(account)).unwrap_or(d)
+        }
+
+        // ---- `IdentityVerifierClient` surface the token calls
+        pub fn verify_identity(e: &Env, account: Address) {
+            if !Self::identity_ok(e, account) {
+                panic_with_error!(e, RWAError::IdentityVerificationFailed)
+            }
+        }
+        pub fn recovery_target(e: &Env, old_account: Address) -> Option<Address> {
+            e.storage().persistent().get(&Key::Recovery(old_account))
+        }
+    }
+}
